@@ -48,7 +48,7 @@ def run(res):
     jobs_in = [json.loads(l) for l in p.stdout.decode("utf8").split("\n") if l]
     jobs = []
     for j in jobs_in:
-        jobs.append({"op": "run", "id": "g", "bundle": j["bundle"], "path": "p", "steps": [{"create": d} for d in j["datas"]]})
+        jobs.append({"op": "run", "id": "g", "bundle": j["bundle"], "path": "p", "slotValues": j.get("slotValues"), "steps": [{"create": d} for d in j["datas"]]})
         for d in j["datas"]:
             jobs.append({"op": "eval", "id": "r", "expr": j["ref"], "data": d})
     out = node_jobs(jobs, shards=12)
